@@ -42,7 +42,7 @@ LV = "bounded symbolic verification of the real code: every explored path's asse
 add("C01", "round-trip fidelity",
     [H("vfH_rt_e2e", ["rt-e2e-end"], 400), H("vfH_rt_e2e", ["rt-e2e-end"], 400, {"M": 2}), H("vfH_rt_chunk", ["rt-chunk-end"]),
      H("vfH_wire_thresholds", ["thresholds-end"]), H("vfH_mask_kernel", ["mask-kernel-end"], 300, {"N": 40}), H("vfH_trunc_step", ["trunc-step-end"]),
-     H("vfH_compress_toggle", ["toggle-end"]), TWIN("vfH_rt_e2e"), TWIN("vfH_mask_kernel")],
+     H("vfH_compress_toggle", ["toggle-end"]), H("vfH_json_rt", ["json-rt-end"]), TWIN("vfH_rt_e2e"), TWIN("vfH_mask_kernel")],
     [H("vfH_rt_e2e", ["rt-e2e-end"], 1800, {"tier": 1}), H("vfH_wire_thresholds", ["thresholds-end"], 900, {"tier": 1}),
      H("vfH_mask_kernel", ["mask-kernel-end"], 900, {"N": 96}), H("vfH_trunc_step", ["trunc-step-end"], 300, {"M": 24})],
     ["quick: 1-2 messages, payload lengths {0,1,W-1,W,W+1,2W,2W+1,2(W+14),2(W+14)+1,2(W+14)+2} for W in {1,8}; thresholds 124..127, 65535, 65536 (server paths); 9 write programs; 5 read configurations (ReadMessage / NextReader with read sizes 1,3,8,200 / JoinMessages; transport chunking max, 1 byte, two reads split at every offset for the short streams); both roles; pool on/off; stored-block compression on/off",
@@ -50,7 +50,7 @@ add("C01", "round-trip fidelity",
      "truncWriter.Write: one step from every state n in 0..4 with 0..10 (thorough 24) input bytes",
      "thorough: payload lengths up to 300 plus 65534..65537 incl. a client whose write buffer holds the whole frame"],
     ["messages longer than the listed lengths, more than 2 messages per connection, buffer sizes other than those listed",
-     "real compress/flate output (any level): only the stored-block model", "WriteJSON/ReadJSON beyond 'an arbitrary io.Writer / io.Reader client'"],
+     "real compress/flate output (any level): only the stored-block model", "WriteJSON/ReadJSON beyond 'an arbitrary io.Writer / io.Reader client' (vfH_json_rt: the encoder writes 1..12 arbitrary bytes in 1-3 Write calls, the decoder reads with sizes 1, 3 or 512 until the message ends)"],
     ASSUME_COMMON, STUB_COMMON + [STUB_FLATE],
     LV + "Round trip = writer Conn -> wire (judged by the RFC reference decoder) -> reader Conn of the opposite role.",
     "trusted: the engine's SSA->SMT translation (validated by native replay of every counterexample and by the seeded-change trials), z3, the stored-block flate model, the transport model")
@@ -67,7 +67,7 @@ add("C02", "wire format",
     "trusted: engine translation, z3, reference decoder (spec.go), stored-block flate model")
 
 add("C03", "reader on any conformant stream",
-    [H("vfH_read_e2e", ["read-e2e-end"], 500), H("vfH_read_step_data", ["step-accepted"], 400), H("vfH_rt_chunk", ["rt-chunk-end"]), TWIN("vfH_read_e2e")],
+    [H("vfH_read_e2e", ["read-e2e-end"], 500), H("vfH_read_step_data", ["step-accepted"], 400), H("vfH_rt_chunk", ["rt-chunk-end"]), H("vfH_json_rt", ["json-rt-end"]), TWIN("vfH_read_e2e")],
     [H("vfH_read_e2e", ["read-e2e-end"], 2400, {"tier": 1}), H("vfH_read_e2e", ["read-e2e-end"], 2400, {"M": 2, "small": 1}),
      H("vfH_read_step_data", ["step-accepted"], 1500, {"tier": 1})],
     ["streams from the reference encoder: 1 message (thorough 2) of length {0,1,5} (thorough + 2,9,130) in 7 fragmentation shapes incl. empty frames, a ping/pong before / between / after the fragments, stored-block compressed or not, all 2^32 mask keys per frame (symbolic), both reader roles",
@@ -95,7 +95,7 @@ add("C05", "no silent truncation",
     [H("vfH_fault_read", ["fault-read-failed-message", "fault-read-all-complete"], 400), TWIN("vfH_fault_read")],
     [H("vfH_fault_read", ["fault-read-failed-message"], 2400, {"tier": 1})],
     ["4 stream shapes (unfragmented + fragmented with ping; fragmented with a non-final frame larger than the read buffer; 16-bit length larger than the read buffer; stored-block compressed fragmented) x every cut offset (quick: all offsets for streams <= 40 bytes, every structural boundary +-1 for the long ones; thorough: all offsets) x 4 fault kinds (EOF after the bytes, EOF together with the last bytes, arbitrary error, timeout) x chunking {max, 1 byte, first header alone} x {ReadMessage, NextReader + reads of 1, 125, 250 bytes}; 3 further NextReader calls after the failure"],
-    ["the documented panic after 1000 reads on a failed connection (3 later calls are checked, not 998)", "transports that violate the io.Reader contract"],
+    ["quick tier: 3 later calls after the failure; the thorough tier runs one configuration up to the documented panic at the 1000th failed read", "transports that violate the io.Reader contract"],
     ASSUME_COMMON, STUB_COMMON + [STUB_FLATE],
     LV + "Fault position, kind and chunking are enumerated; payloads and keys are symbolic.",
     "trusted: engine translation (incl. the real bufio.Reader executed from SSA), transport fault model")
